@@ -441,6 +441,7 @@ type Contract struct {
 	Auto       bool // generated by a sweep directive: uncontracted callees are opaque, never inlined
 	NoTypeInv  bool
 	OvfCheck   bool
+	WrapArith  bool // signed + - * follow Go's wrap-around exactly (no overflow obligations, no no-overflow assumption)
 	Defines    []*Clause // naming clauses: assumed by callers, not checked in the body (the function is deterministic)
 	Unreachable map[string]string // obligation suffix (e.g. panic#0) -> reason: assumed unreachable, listed
 	AssumeInv  bool // type-invariant postconditions of this unit are assumed, not proved (listed)
@@ -494,7 +495,7 @@ type SpecDB struct {
 
 var clauseKeywords = map[string]bool{"func": true, "requires": true, "ensures": true, "modifies": true, "allocbound": true,
 	"loop": true, "mode": true, "trusted": true, "prop": true, "pred": true, "lemma": true, "pure": true, "inline": true,
-	"split": true, "noverify": true, "ghost": true, "timeout": true, "opaque": true, "recpred": true, "oncall": true, "sweep": true, "typeinv": true, "notypeinv": true, "ovfcheck": true, "assumeinv": true, "defines": true, "assume-unreachable": true}
+	"split": true, "noverify": true, "ghost": true, "timeout": true, "opaque": true, "recpred": true, "oncall": true, "sweep": true, "typeinv": true, "notypeinv": true, "ovfcheck": true, "assumeinv": true, "defines": true, "assume-unreachable": true, "wraparith": true}
 
 // LoadSpecs parses every verif_contracts*.go in dir (package name pkg).
 func LoadSpecs(db *SpecDB, dir, pkg string) error {
@@ -654,6 +655,8 @@ func loadSpecFile(db *SpecDB, file, pkg string) error {
 				cur.NoTypeInv = true
 			case "ovfcheck":
 				cur.OvfCheck = true
+			case "wraparith":
+				cur.WrapArith = true
 			case "assumeinv":
 				cur.AssumeInv = true
 			case "inline":
